@@ -87,7 +87,7 @@ def abortMsg (text : Bytes) (bad : Option Nat) : Msg :=
   { code := codeAbort, token := [],
     opts := match bad with
       | none => []
-      | some n => [⟨2, natToMinBE n⟩],
+      | some n => [⟨2, minBE n⟩],
     payload := text }
 
 /-- `abort(...)` → `_abort_with`: send the Abort, close the transport (tcp.py:124-127; the
@@ -97,7 +97,7 @@ def abortOuts (text : Bytes) (bad : Option Nat) : List Out :=
 
 /-- the initial CSM (rfc8323common.py:122-131): option 2 = own max message size, option 4 empty -/
 def initialCsm (maxSize : Nat) : Msg :=
-  { code := codeCSM, token := [], opts := [⟨2, natToMinBE maxSize⟩, ⟨4, []⟩], payload := [] }
+  { code := codeCSM, token := [], opts := [⟨2, minBE maxSize⟩, ⟨4, []⟩], payload := [] }
 
 /-- `connection_made`: nothing but the initial CSM is observable -/
 def connectionMade (maxSize : Nat) : Conn × List Out :=
